@@ -219,7 +219,7 @@ func c14(p *Prog, r *Report) {
 		r.List("functions", shortName(fn))
 		s := p.NewSym(fn)
 		ed := "ed25519/internal/edwards25519"
-		k := "call<(*" + ed + ".Scalar).SetUniformBytes>(call<" + ed + ".NewScalar>(), hash<crypto/sha512.New>(cat(slice(param:2, const:0, const:32), param:0, param:1)))"
+		k := "call<(*" + ed + ".Scalar).SetUniformBytes>(call<" + ed + ".NewScalar>(), hash<sha512>(cat(slice(param:2, const:0, const:32), param:0, param:1)))"
 		A := "extract<0>(call<(*" + ed + ".Point).SetBytes>(alloc<*>(), param:0))"
 		S := "extract<0>(call<(*" + ed + ".Scalar).SetCanonicalBytes>(call<" + ed + ".NewScalar>(), slice(param:2, const:32, const:nil)))"
 		R := "call<(*" + ed + ".Point).VarTimeDoubleScalarBaseMult>(alloc<*>(), " + k + ", call<(*" + ed + ".Point).Negate>(alloc<*>(), " + A + "), " + S + ")"
@@ -252,9 +252,9 @@ func c14(p *Prog, r *Report) {
 	if fn := anchor(p, r, R3, "~/ed25519.signInternal"); fn != nil {
 		s := p.NewSym(fn)
 		ed := "ed25519/internal/edwards25519"
-		rr := "call<(*" + ed + ".Scalar).SetUniformBytes>(call<" + ed + ".NewScalar>(), hash<crypto/sha512.New>(cat(param:3, param:2)))"
+		rr := "call<(*" + ed + ".Scalar).SetUniformBytes>(call<" + ed + ".NewScalar>(), hash<sha512>(cat(param:3, param:2)))"
 		Rb := "call<(*" + ed + ".Point).Bytes>(call<(*" + ed + ".Point).ScalarBaseMult>(alloc<*>(), " + rr + "))"
-		kk := "call<(*" + ed + ".Scalar).SetUniformBytes>(call<" + ed + ".NewScalar>(), hash<crypto/sha512.New>(cat(" + Rb + ", param:1, param:2)))"
+		kk := "call<(*" + ed + ".Scalar).SetUniformBytes>(call<" + ed + ".NewScalar>(), hash<sha512>(cat(" + Rb + ", param:1, param:2)))"
 		Sb := "call<(*" + ed + ".Scalar).Bytes>(call<(*" + ed + ".Scalar).MultiplyAdd>(call<" + ed + ".NewScalar>(), " + kk + ", param:4, " + rr + "))"
 		var c1, c2 bool
 		for _, site := range sitesIn(fn, func(n string) bool { return n == "builtin.copy" }) {
